@@ -64,8 +64,8 @@ def analyse(prog, rep, label, is_control=False):
     return pt, hits, nstores, per_fn
 
 
-def run_config(rep, config):
-    prog = Program(config)
+def check(rep, prog, tier):
+    config = prog.config
     pt, hits, nstores, per_fn = analyse(prog, rep, config)
     rep.count(nstores)
     # O14.2 / O14.3: per function
@@ -177,17 +177,17 @@ def control(rep):
         rep.unresolved('control', 'positive control not reproduced: missed=%s false_alarms=%s bad=%d' % (missed, false_alarm, nb))
 
 
-def run(rep, tier):
-    rep.level = 'proof'
+LEVEL = 'proof'
+CONFIGS = {'quick': ['float'], 'thorough': ['float', 'fixed', 'fixed24', 'nofloatapi', 'custom', 'nortcd']}
+
+
+def setup(rep, tier):
     rep.minimum('O14.1', 180)
     rep.minimum('O14.2', 400)
     rep.minimum('O14.4', 1)
     rep.minimum('O14.5', 1)
     rep.minimum('O14.6', 1)
     control(rep)
-    configs = ['float'] if tier == 'quick' else ['float', 'fixed', 'fixed24', 'nofloatapi', 'custom', 'nortcd']
-    for c in configs:
-        run_config(rep, c)
     rep.assumptions += ['malloc/free, mem*, libm and the x86 intrinsics are thread-safe',
                         'callers use one thread per codec object',
                         'no pointer is laundered through an integer, a union or a varargs list']
